@@ -594,3 +594,21 @@ def regex_literal(repo, mod, name):
     if isinstance(a, ast.Constant) and isinstance(a.value, str):
         return a.value, flags
     raise AnalysisError('%s.%s pattern is not a plain string literal' % (mod, name))
+
+
+def prop_equiv(test, expected_src, atom=N):
+    """truth-table equivalence of a boolean AST with an expected formula (source text) over the union of their atoms.
+    Returns (True, None) or (False, falsifying assignment). Robust to any propositionally equivalent rewrite."""
+    exp = ast.parse(expected_src, mode='eval').body
+    atoms = []
+    for a in bool_atoms(test, atom) + bool_atoms(exp, atom):
+        na = atom(negate(ast.parse(a, mode='eval').body))
+        if a not in atoms and na not in atoms:
+            atoms.append(a)
+    if len(atoms) > 12:
+        raise AnalysisError('too many atoms for a truth table: %d' % len(atoms))
+    for bits in itertools.product([False, True], repeat=len(atoms)):
+        env = dict(zip(atoms, bits))
+        if bool_eval(test, env, atom) != bool_eval(exp, env, atom):
+            return False, env
+    return True, None
